@@ -7,7 +7,9 @@ use std::{
 };
 
 use proto::{
-    congestion::{Bbr, BbrConfig, Controller, ControllerFactory, Cubic, CubicConfig, NewReno, NewRenoConfig},
+    congestion::{
+        Bbr, BbrConfig, Controller, ControllerFactory, Cubic, CubicConfig, NewReno, NewRenoConfig,
+    },
     verif_comp::rtt_estimator,
     RttEstimator,
 };
@@ -25,11 +27,27 @@ const RTT_MS: u64 = 100;
 
 #[derive(Clone, Copy, Debug, PartialEq, Eq)]
 pub enum COp {
-    Sent { dt: u8 },
-    Ack { dt: u8, app_limited: bool, in_flight_big: bool },
-    Cong { dt: u8, persistent: bool, ecn: bool, lost: u8 },
-    Spurious { dt: u8 },
-    Mtu { dt: u8, mtu: u16 },
+    Sent {
+        dt: u8,
+    },
+    Ack {
+        dt: u8,
+        app_limited: bool,
+        in_flight_big: bool,
+    },
+    Cong {
+        dt: u8,
+        persistent: bool,
+        ecn: bool,
+        lost: u8,
+    },
+    Spurious {
+        dt: u8,
+    },
+    Mtu {
+        dt: u8,
+        mtu: u16,
+    },
 }
 
 pub trait Kind: Send + Sync + 'static {
@@ -72,7 +90,10 @@ impl Kind for KBbr {
         let c = Arc::new(BbrConfig::default()).build(now, 1200);
         // `Bbr::new` seeds its gain-cycle RNG from OS entropy; pin it so histories are
         // reproducible and state keys comparable.
-        let mut bbr = c.into_any().downcast::<Bbr>().expect("BbrConfig builds Bbr");
+        let mut bbr = c
+            .into_any()
+            .downcast::<Bbr>()
+            .expect("BbrConfig builds Bbr");
         bbr.verif_reseed(seed);
         bbr
     }
@@ -84,7 +105,36 @@ impl Kind for KBbr {
     }
 }
 
+/// Configuration: RNG seed (BBR only) and which slice of the alphabet is explored
+#[derive(Clone, Copy, Debug, PartialEq, Eq)]
+pub struct CCfg {
+    pub seed: u64,
+    pub alphabet: Alphabet,
+}
+
+#[derive(Clone, Copy, Debug, PartialEq, Eq)]
+pub enum Alphabet {
+    /// Everything: 3 time steps x 21 calls
+    Full,
+    /// Time steps {100 ms, 10 s} x 9 calls (one representative per call kind and flag that
+    /// any of the three controllers looks at)
+    Reduced,
+    /// Time step 100 ms x the same 9 calls
+    Minimal,
+}
+
+impl Alphabet {
+    fn name(self) -> &'static str {
+        match self {
+            Self::Full => "full",
+            Self::Reduced => "reduced",
+            Self::Minimal => "minimal",
+        }
+    }
+}
+
 pub struct CcSys<K: Kind> {
+    alphabet: Alphabet,
     real: Box<dyn Controller>,
     rtt: RttEstimator,
     now_ms: u64,
@@ -99,18 +149,22 @@ impl<K: Kind> CcSys<K> {
         base_instant() + Duration::from_millis(1000 + ms)
     }
     fn model_str(&self) -> String {
-        format!("t={}ms next_pn={} mtu={}", self.now_ms, self.next_pn, self.mtu)
+        format!(
+            "t={}ms next_pn={} mtu={}",
+            self.now_ms, self.next_pn, self.mtu
+        )
     }
 }
 
 impl<K: Kind> Sys for CcSys<K> {
-    type Cfg = u64;
+    type Cfg = CCfg;
     type Op = COp;
     const NAME: &'static str = K::NAME;
 
-    fn new(seed: &u64) -> Self {
+    fn new(cfg: &CCfg) -> Self {
         Self {
-            real: K::build(Self::at(0), *seed),
+            alphabet: cfg.alphabet,
+            real: K::build(Self::at(0), cfg.seed),
             rtt: rtt_estimator(
                 Duration::from_millis(RTT_MS),
                 &[(Duration::ZERO, Duration::from_millis(RTT_MS))],
@@ -124,17 +178,67 @@ impl<K: Kind> Sys for CcSys<K> {
 
     fn ops(&self) -> Vec<COp> {
         let mut v = Vec::new();
+        if self.alphabet != Alphabet::Full {
+            let dts: &[u8] = if self.alphabet == Alphabet::Reduced {
+                &[1, 2]
+            } else {
+                &[1]
+            };
+            for &dt in dts {
+                v.push(COp::Sent { dt });
+                v.push(COp::Ack {
+                    dt,
+                    app_limited: false,
+                    in_flight_big: false,
+                });
+                v.push(COp::Ack {
+                    dt,
+                    app_limited: false,
+                    in_flight_big: true,
+                });
+                v.push(COp::Ack {
+                    dt,
+                    app_limited: true,
+                    in_flight_big: false,
+                });
+                v.push(COp::Cong {
+                    dt,
+                    persistent: false,
+                    ecn: false,
+                    lost: 1,
+                });
+                v.push(COp::Cong {
+                    dt,
+                    persistent: true,
+                    ecn: false,
+                    lost: 1,
+                });
+                v.push(COp::Spurious { dt });
+                v.push(COp::Mtu { dt, mtu: 9000 });
+                v.push(COp::Mtu { dt, mtu: 1200 });
+            }
+            return v;
+        }
         for dt in 0..DT_MS.len() as u8 {
             v.push(COp::Sent { dt });
             for app_limited in [false, true] {
                 for in_flight_big in [false, true] {
-                    v.push(COp::Ack { dt, app_limited, in_flight_big });
+                    v.push(COp::Ack {
+                        dt,
+                        app_limited,
+                        in_flight_big,
+                    });
                 }
             }
             for persistent in [false, true] {
                 for ecn in [false, true] {
                     for lost in 0..LOST.len() as u8 {
-                        v.push(COp::Cong { dt, persistent, ecn, lost });
+                        v.push(COp::Cong {
+                            dt,
+                            persistent,
+                            ecn,
+                            lost,
+                        });
                     }
                 }
             }
@@ -148,7 +252,11 @@ impl<K: Kind> Sys for CcSys<K> {
 
     fn apply(&mut self, op: &COp) -> StepOut {
         let dt = match *op {
-            COp::Sent { dt } | COp::Ack { dt, .. } | COp::Cong { dt, .. } | COp::Spurious { dt } | COp::Mtu { dt, .. } => dt,
+            COp::Sent { dt }
+            | COp::Ack { dt, .. }
+            | COp::Cong { dt, .. }
+            | COp::Spurious { dt }
+            | COp::Mtu { dt, .. } => dt,
         };
         self.now_ms += DT_MS[dt as usize];
         let now = Self::at(self.now_ms);
@@ -158,13 +266,28 @@ impl<K: Kind> Sys for CcSys<K> {
                 self.real.on_sent(now, 1200, self.next_pn);
                 self.next_pn += 1;
             }
-            COp::Ack { app_limited, in_flight_big, .. } => {
+            COp::Ack {
+                app_limited,
+                in_flight_big,
+                ..
+            } => {
                 self.real.on_ack(now, sent, 1200, app_limited, &self.rtt);
                 let largest = self.next_pn.checked_sub(1);
-                self.real.on_end_acks(now, if in_flight_big { 12_000 } else { 0 }, app_limited, largest);
+                self.real.on_end_acks(
+                    now,
+                    if in_flight_big { 12_000 } else { 0 },
+                    app_limited,
+                    largest,
+                );
             }
-            COp::Cong { persistent, ecn, lost, .. } => {
-                self.real.on_congestion_event(now, sent, persistent, ecn, LOST[lost as usize]);
+            COp::Cong {
+                persistent,
+                ecn,
+                lost,
+                ..
+            } => {
+                self.real
+                    .on_congestion_event(now, sent, persistent, ecn, LOST[lost as usize]);
             }
             COp::Spurious { .. } => self.real.on_spurious_congestion_event(),
             COp::Mtu { mtu, .. } => {
@@ -184,14 +307,20 @@ impl<K: Kind> Sys for CcSys<K> {
                 real,
                 self.model_str(),
                 format!("{}:window-below-two-datagrams", K::NAME),
-                format!("window() = {w} < 2 x current max datagram size {} = {floor}", self.mtu),
+                format!(
+                    "window() = {w} < 2 x current max datagram size {} = {floor}",
+                    self.mtu
+                ),
             )
         } else if m.congestion_window != w {
             StepOut::bad(
                 real,
                 self.model_str(),
                 format!("{}:metrics-window-mismatch", K::NAME),
-                format!("metrics().congestion_window = {} but window() = {w}", m.congestion_window),
+                format!(
+                    "metrics().congestion_window = {} but window() = {w}",
+                    m.congestion_window
+                ),
             )
         } else {
             StepOut::ok(real, self.model_str())
@@ -202,20 +331,47 @@ impl<K: Kind> Sys for CcSys<K> {
         format!("{} || {}", K::render(&*self.real), self.model_str())
     }
 
-    fn cfg_json(seed: &u64) -> Value {
-        json!({ "seed": seed })
+    fn cfg_json(c: &CCfg) -> Value {
+        json!({ "seed": c.seed, "alphabet": c.alphabet.name() })
     }
-    fn cfg_parse(v: &Value) -> Option<u64> {
-        v["seed"].as_u64()
+    fn cfg_parse(v: &Value) -> Option<CCfg> {
+        Some(CCfg {
+            seed: v["seed"].as_u64()?,
+            alphabet: match v["alphabet"].as_str().unwrap_or("full") {
+                "reduced" => Alphabet::Reduced,
+                "minimal" => Alphabet::Minimal,
+                _ => Alphabet::Full,
+            },
+        })
     }
     fn op_json(op: &COp) -> Value {
         match *op {
             COp::Sent { dt } => json!(["on_sent", DT_MS[dt as usize]]),
-            COp::Ack { dt, app_limited, in_flight_big } => {
-                json!(["on_ack+on_end_acks", DT_MS[dt as usize], app_limited, if in_flight_big { 12_000 } else { 0 }])
+            COp::Ack {
+                dt,
+                app_limited,
+                in_flight_big,
+            } => {
+                json!([
+                    "on_ack+on_end_acks",
+                    DT_MS[dt as usize],
+                    app_limited,
+                    if in_flight_big { 12_000 } else { 0 }
+                ])
             }
-            COp::Cong { dt, persistent, ecn, lost } => {
-                json!(["on_congestion_event", DT_MS[dt as usize], persistent, ecn, LOST[lost as usize]])
+            COp::Cong {
+                dt,
+                persistent,
+                ecn,
+                lost,
+            } => {
+                json!([
+                    "on_congestion_event",
+                    DT_MS[dt as usize],
+                    persistent,
+                    ecn,
+                    LOST[lost as usize]
+                ])
             }
             COp::Spurious { dt } => json!(["on_spurious_congestion_event", DT_MS[dt as usize]]),
             COp::Mtu { dt, mtu } => json!(["on_mtu_update", DT_MS[dt as usize], mtu]),
@@ -223,7 +379,9 @@ impl<K: Kind> Sys for CcSys<K> {
     }
     fn op_parse(v: &Value) -> Option<COp> {
         let a = v.as_array()?;
-        let dt = DT_MS.iter().position(|&d| Some(d) == a.get(1).and_then(|x| x.as_u64()))? as u8;
+        let dt = DT_MS
+            .iter()
+            .position(|&d| Some(d) == a.get(1).and_then(|x| x.as_u64()))? as u8;
         match a.first()?.as_str()? {
             "on_sent" => Some(COp::Sent { dt }),
             "on_ack+on_end_acks" => Some(COp::Ack {
@@ -235,10 +393,16 @@ impl<K: Kind> Sys for CcSys<K> {
                 dt,
                 persistent: a.get(2)?.as_bool()?,
                 ecn: a.get(3)?.as_bool()?,
-                lost: LOST.iter().position(|&l| Some(l) == a.get(4).and_then(|x| x.as_u64()))? as u8,
+                lost: LOST
+                    .iter()
+                    .position(|&l| Some(l) == a.get(4).and_then(|x| x.as_u64()))?
+                    as u8,
             }),
             "on_spurious_congestion_event" => Some(COp::Spurious { dt }),
-            "on_mtu_update" => Some(COp::Mtu { dt, mtu: a.get(2)?.as_u64()? as u16 }),
+            "on_mtu_update" => Some(COp::Mtu {
+                dt,
+                mtu: a.get(2)?.as_u64()? as u16,
+            }),
             _ => None,
         }
     }
